@@ -35,9 +35,63 @@ PROPS = {
     },
 }
 
+REFLECT_CLASS = {("C04", 2): ["F15"], ("C04", 3): ["F22"]}
+
+ST_NET, ST_COINS, ST_COUNTS, ST_POOLS, ST_STAKES, ST_HIST, ST_TXS, ST_FEES, ST_MULT, ST_CODE, ST_HDR, ST_CONFIRM = 1, 2, 4, 8, 16, 32, 64, 128, 256, 512, 1024, 2048
+ST_ALL = 4095
+STF_RULE = ("stf stream: directed regression scenarios (one per known defect) followed by random histories on 4 network kinds: "
+            "genesis, batches of 1-6 transactions of all kinds built by a wallet that tracks its coins (with dependent, duplicated, "
+            "shuffled and adversarially mutated members), seal with/without proposer action, next_unsealed, apply_block with 16 kinds of "
+            "single-field mutation, restart (to_block/from_block), confirm with subsets of signers; every step is replayed on the model "
+            "(full state compared) and the property's reflection is evaluated on the real before/after states; a scenario is non-trivial "
+            "when it has more than two accepted and at least one rejected operation")
+
+def stf_prop(targets, mask, assumptions, rule_extra=""):
+    return {"coq_targets": targets, "case_libs": ["Cases/Reflect.vo"], "streams": [("stf", mask)],
+            "rule": STF_RULE + rule_extra, "assumptions": assumptions}
+
+PROPS.update({
+    "C05": stf_prop(["STF/Proofs/Fees.vo"], ST_FEES | ST_COINS | ST_CODE,
+                    ["serialized length of a transaction (stdcode) is an oracle field taken from the real crate", "saturating u128 sums: exact under the 2^127 supply bound"]),
+    "C06": stf_prop(["STF/Proofs/Block.vo"], ST_ALL,
+                    ["the five Merkle roots are a function rf of the state (any function in the theorems; the real roots in the check)"],
+                    "; C06: honest blocks must be accepted, each of 16 single-field mutations rejected (harness), apply_block replayed on the model"),
+    "C07": stf_prop(["STF/Proofs/Block.vo"], ST_HIST | ST_HDR | ST_NET,
+                    ["Merkle trees (novasmt) are not modelled in Coq: membership/absence proofs, history independence and the dense TIP-908 tree are checked on the real crate for every sealed state of the stream"]),
+    "C08": stf_prop(["STF/Proofs/Block.vo"], ST_ALL,
+                    ["the content-addressed store returns the trees the header roots name (from_block takes them from the same maps)"],
+                    "; C08: after every restart both lineages run three further blocks and their headers are compared"),
+    "C13": stf_prop(["STF/Proofs/Stakes.vo"], ST_STAKES | ST_CODE, ["StakeDoc decoding (stdcode) is an oracle field"]),
+    "C14": stf_prop(["STF/Proofs/Confirm.vo"], ST_CONFIRM, ["Ed25519 verification and the header hash are oracles"]),
+    "C17": stf_prop(["STF/Proofs/FeeMult.vo", "STF/Proofs/Frame.vo"], ST_MULT, []),
+    "C18": stf_prop(["STF/Proofs/Dosc.vo"], ST_MULT | ST_CODE, ["melpow::Proof::verify is an oracle answered by the real crate per (proof, seed header, coin, difficulty)"]),
+    "C19": stf_prop(["STF/Proofs/Faucet.vo"], ST_COINS | ST_CODE, ["faucet markers are distinct from every other coin id (hash oracle); no covenant hashes to 0"]),
+})
+
 NOT_YET = {}
 
+def _stf_text(text, note, technique):
+    return {"text": text, "note": note + " Model tied to the code by replaying every recorded step of the stf stream on the Gallina model (full-state comparison) and by evaluating the property's boolean reflection on the implementation's own before/after states.", "technique": technique}
+
 MANIFEST_TEXT = {
+    "C05": _stf_text("Coq theorems over the executable model of apply_tx_batch / seal: weight and minimum-fee formulas, every member of an accepted batch pays at least its minimum fee, fee pool and tips move by exactly the minimum-fee parts and remainders, the proposer reward coin is fee_pool/65536 + tips and both drop by exactly that - for all states, batches and multipliers.",
+                     "The serialized size is an oracle field.", "Coq proof (induction over the batch) + differential replay + reflection"),
+    "C06": _stf_text("Coq theorems: apply_block succeeds iff the transactions apply to the successor state, the result seals and the recomputed header equals the declared one; the returned state has that header; honest blocks are accepted; a differing header is rejected - for all states, blocks and root functions.",
+                     "Header equality is record equality over 11 fields; roots are an arbitrary function of the state.", "Coq proof (unfolding/case analysis) + differential replay + mutation harness"),
+    "C07": _stf_text("Coq theorems for the state level (header fields, successor linkage, child header points at the parent for every block); the Merkle level (proofs of presence/absence verify, roots independent of operation order, dense tree positions) is explored on the real novasmt for every sealed state of the stream - partial: the trees are not modelled in Coq.",
+                     "Partial: Merkle trees are exercised, not proved.", "Coq proof (state level) + exploration of novasmt proofs on real states"),
+    "C08": _stf_text("Coq theorem: from_block(to_block s) = s as states (Leibniz equality, hence identical behaviour under every continuation) whenever no tips are pending, and the refutation for pending tips (known finding F16); the harness runs three further blocks on both lineages after every restart.",
+                     "The store is modelled as returning the same maps.", "Coq proof (record equality) + lock-step continuation check"),
+    "C13": _stf_text("Coq theorems: a stake is registered iff the five stated conditions hold; the stake set after a batch is exactly old plus registered; malformed stake transactions reject the batch; an accepted batch spends no output of a staked transaction (including same-batch stakes); at each block boundary exactly the stakes with end >= new epoch survive; sealing keeps the stakes.",
+                     "Legacy heights (F20) appear as explicit guards in the statements.", "Coq proof (induction over batch / map filter) + differential replay + reflection"),
+    "C14": _stf_text("Coq theorems: confirm = true iff all signatures verify and 3*present > 2*total (the overflow-free threshold of the code is proved equal to that); never below two thirds, empty proofs never confirm, full proofs confirm, adding a valid signature is monotone - for all stake sets and proofs.",
+                     "Ed25519 is an oracle.", "Coq proof (integer arithmetic, list induction) + differential replay + reflection"),
+    "C17": _stf_text("Coq theorems: seal leaves the multiplier unchanged without an action and applies move_fee_multiplier with one; that function equals trunc(max(m/128,floor)*d/128) saturated to the u128 range, moves by at most max(m/128,2), never wraps - for every m < 2^128 and d in [-128,127].",
+                     "", "Coq proof (lia with div/mod) + differential replay + reflection"),
+    "C18": _stf_text("Coq theorems: an accepted mint has a decodable proof valid under one of the two hashes for the seed header at the coin's creation height and the coin id, difficulty in 1..64, the mainnet age rule, ERG outputs within dosc_to_erg(calculate_reward(...)); every mint of an accepted batch was validated; the DOSC speed never decreases in a batch and is kept by seal.",
+                     "melpow verification is an oracle.", "Coq proof (case analysis) + differential replay + reflection"),
+    "C19": _stf_text("Coq theorems: on mainnet an accepted batch contains no faucet but the grandfathered hash; a faucet whose marker is in the coin tree makes the batch fail (same batch, later batches); acceptance inserts the marker and batches that do not spend it keep it.",
+                     "Markers are assumed distinct from other coin ids (hash oracle).", "Coq proof (induction over the batch) + differential replay + reflection"),
     "C12": {
         "text": "Machine-checked proof (Coq) that the model's decoder and encoder are mutually inverse on all byte strings / all representable programs (no size bound), over opcode bytes and operand shapes regenerated from opcode.rs/consts.rs on every run; the model is tied to the real Covenant::from_bytes/to_bytes/weight by exhaustive comparison on all short byte strings and literal comparison on generated ones.",
         "note": "Trusted: Coq kernel + vm_compute, the table translator, the harness; bytes are N<256 in the model. A rewrite of opcode.rs the translator does not recognise is reported as a broken tie (no-failing-input-found) unless the differential run finds a failing input.",
